@@ -34,6 +34,7 @@ type VC struct {
 	ctr         int
 	compSort    map[string]string
 	errs        []string
+	warns       []string
 	assumptions map[string]bool
 	oblCount    map[string]int
 	discover    bool
